@@ -1372,4 +1372,7 @@ func runC11(c *core.Ctx) {
 		"CellIndex: Build is called once, after all additions (documented); Seek is asserted with the implemented (and C++) meaning 'range containing the leaf'",
 	}
 	c11RunAll(c)
+	if c.OnlySub == "" || c.OnlySub == "S5-find-many-unions" {
+		c11FindManyUnions(c)
+	}
 }
